@@ -262,3 +262,43 @@ def check_poststeps(res, sc, rec, start_As, tag="K13"):
         else:
             res.mismatch(tag + " perform_step write-back", scenario_json(sc), np.asarray(want).tolist()[:30], got[:30],
                          note=f"maxdiff={C.maxdiff(got, want)}")
+
+
+def scenario_from_json(d):
+    f = d["field"]
+    fld = LField(np.array(f["L0"]), np.array(f["L1"]), np.array(f["Mx"]), np.array(f["L2"]), f["w"], np.array(f["x0"]), np.array(f["v"]),
+                 f.get("scale", 1.0), f.get("tscale", 1.0))
+    sc = {k: v for k, v in d.items() if k not in ("field", "get_regime", "mode", "other", "k", "Q", "subset", "twofold", "variant", "loader",
+                                                   "chis", "kwargs", "minerals", "L")}
+    sc["field"] = fld
+    sc["F0"] = np.array(sc["F0"], float)
+    sc["phase_fractions"] = tuple(sc.get("phase_fractions", (0.7, 0.3)))
+    return sc
+
+
+def replay_violations(data):
+    """`./check Cxx --replay FILE` for the solver-level properties: rebuild every recorded scenario, drive the REAL
+    update_orientations over it again and print what the stored history looks like now."""
+    import json as _json
+
+    for v in data.get("violations", []):
+        print("violation:", v.get("key"), "-", str(v.get("what"))[:300])
+        r = v.get("replay", {})
+        if not (isinstance(r, dict) and "field" in r and "tex_seed" in r):
+            print("  recorded input:", _json.dumps(r)[:1500])
+            continue
+        sc = scenario_from_json(r)
+        try:
+            m, Fs, _ = run_scenario(sc, record=False)
+        except Exception as e:  # noqa: BLE001
+            print("  re-running the scenario raises:", type(e).__name__, str(e)[:200])
+            continue
+        A, f = m.orientations[-1], m.fractions[-1]
+        dev = float(np.abs(np.einsum("gij,gkj->gik", A, A) - np.eye(3)).max())
+        Fref = reference_F(sc)
+        print(f"  re-run: {len(m.fractions)} snapshots; last snapshot finite={bool(np.isfinite(A).all() and np.isfinite(f).all())} "
+              f"sum f={f.sum()!r} min f={f.min():.3e} max|A.A^T-I|={dev:.3e}; F rel. err vs RK4 reference="
+              f"{float(np.abs(Fs[-1] - Fref).max() / max(1.0, np.abs(Fref).max())):.3e}")
+    for b in data.get("unchecked", []):
+        print("unchecked obligation / correspondence:", _json.dumps(b)[:1500])
+    return 0
